@@ -94,3 +94,32 @@ func TestVerifC07(t *testing.T) {
 	}
 	out.Close("C07.Check", "")
 }
+
+// vpWipeStatuses clears the status of every Gateway API object in the fake cluster.
+func vpWipeStatuses(w *vpWorld) {
+	ctx := context.Background()
+	var gcs gatewayv1.GatewayClassList
+	_ = w.k8s.List(ctx, &gcs)
+	for i := range gcs.Items {
+		gcs.Items[i].Status = gatewayv1.GatewayClassStatus{}
+		_ = w.k8s.Status().Update(ctx, &gcs.Items[i])
+	}
+	var gws gatewayv1.GatewayList
+	_ = w.k8s.List(ctx, &gws)
+	for i := range gws.Items {
+		gws.Items[i].Status = gatewayv1.GatewayStatus{}
+		_ = w.k8s.Status().Update(ctx, &gws.Items[i])
+	}
+	var hrs gatewayv1.HTTPRouteList
+	_ = w.k8s.List(ctx, &hrs)
+	for i := range hrs.Items {
+		hrs.Items[i].Status = gatewayv1.HTTPRouteStatus{}
+		_ = w.k8s.Status().Update(ctx, &hrs.Items[i])
+	}
+	var grs gatewayv1.GRPCRouteList
+	_ = w.k8s.List(ctx, &grs)
+	for i := range grs.Items {
+		grs.Items[i].Status = gatewayv1.GRPCRouteStatus{}
+		_ = w.k8s.Status().Update(ctx, &grs.Items[i])
+	}
+}
